@@ -6,7 +6,7 @@
 use std::collections::{BTreeMap, BTreeSet};
 use std::sync::Mutex;
 
-use e5_harness::*;
+use crate::harness::*;
 use hydro_lang::live_collections::stream::{ExactlyOnce, NoOrder, Ordering, TotalOrder};
 use hydro_lang::prelude::*;
 use hydro_lang::sim::compiled::CompiledSim;
